@@ -44,6 +44,15 @@ CASES = [
      [('c () d;', ('start', [('item', ['NAME:c', N, 'NAME:d'])])), ('c (x) d;', ('start', [('item', ['NAME:c', 'NAME:x', 'NAME:d'])]))]),
     # repetition helpers stay invisible; left recursion
     ('start: NAME+ "." _list\n_list: NUM | _list "," NUM\nNAME: /[a-z]/\nNUM: /[0-9]/', {}, [('ab.1,2,3', ('start', ['NAME:a', 'NAME:b', 'NUM:1', 'NUM:2', 'NUM:3']))]),
+    # two rules with the same [..] layout: each keeps its OWN modifiers (?, !, aliases) - options are per rule, not per layout
+    ('start: a b\na: [X] Y\n?b: [X] Z\nX: "x"\nY: "y"\nZ: "z"', {'maybe_placeholders': True}, [('yz', ('start', [('a', [N, 'Y:y']), 'Z:z']) if False else ('start', [('a', [N, 'Y:y']), ('b', [N, 'Z:z'])])), ('xyxz', ('start', [('a', ['X:x', 'Y:y']), ('b', ['X:x', 'Z:z'])]))]),
+    ('start: a b\na: [X] Y\n?b: [X] Z\nX: "x"\nY: "y"\nZ: "z"', {'maybe_placeholders': False}, [('yz', ('start', [('a', ['Y:y']), 'Z:z'])), ('xyz', ('start', [('a', ['X:x', 'Y:y']), 'Z:z']))]),
+    ('start: b a\n?b: [X] Z\na: [X] Y\nX: "x"\nY: "y"\nZ: "z"', {'maybe_placeholders': False}, [('zy', ('start', ['Z:z', ('a', ['Y:y'])])), ('zxy', ('start', ['Z:z', ('a', ['X:x', 'Y:y'])]))]),
+    ('start: a b\n!a: ["("] Y\nb: ["("] Z\nY: "y"\nZ: "z"', {'maybe_placeholders': False}, [('(y(z', ('start', [('a', ['LPAR:(', 'Y:y']), ('b', ['Z:z'])])), ('yz', ('start', [('a', ['Y:y']), ('b', ['Z:z'])]))]),
+    # helper rules of + and * are not shared between a rule that repeats an anonymous literal (filtered) and one that repeats the
+    # equal-looking named terminal (kept)
+    ('start: a ";" b\na: "x"+\nb: X+\nX: "x"', {}, [('xx;xx', ('start', [('a', []), ('b', ['X:x', 'X:x'])]))]),
+    ('start: b ";" a\na: "x"+\nb: X+\nX: "x"', {}, [('xx;x', ('start', [('b', ['X:x', 'X:x']), ('a', [])]))]),
 ]
 ENGINES = [('lalr', 'basic'), ('lalr', 'contextual'), ('earley', 'basic'), ('earley', 'dynamic'), ('earley', 'dynamic_complete'), ('cyk', 'basic')]
 for g, opts, samples in CASES:
@@ -73,6 +82,18 @@ for parser in ('lalr', 'earley'):
     exp = ('start', [('a', ['X:x', 'X:x']), ('b', [])])
     if r != exp:
         note('helper-rule-options', {'grammar': g, 'text': 'xx,x', 'parser': parser}, r, exp)
+# CYK's grammar normalisation works on sets of rules: the result must not depend on the hash seed (unit chains shared by two rules)
+import os, subprocess
+UNIT = 'start: a ";" d\na: b\nd: b\nb: c\nc: X Y\nX: "x"\nY: "y"'
+probe = "import sys\nfrom lark import Lark\ntry:\n    t = Lark(%r, parser='cyk').parse('xy;xy'); print('ok', len(t.children))\nexcept Exception as e:\n    print('err', type(e).__name__)\n" % UNIT
+for hs in ([0, 6, 11] if tier == 'quick' else list(range(0, 24))):
+    evals += 1
+    try:
+        out = subprocess.run([sys.executable, '-c', probe], env=dict(os.environ, PYTHONHASHSEED=str(hs)), capture_output=True, text=True, timeout=60).stdout.strip()
+    except Exception as e:
+        out = 'probe failed: %r' % (e,)
+    if out != 'ok 2':
+        note('cyk-hash-seed', {'grammar': UNIT, 'text': 'xy;xy', 'PYTHONHASHSEED': hs}, out, 'the same tree as every other engine (start with children a, d)')
 res = {'fails': bool(fails), 'evaluations': evals, 'distinct': distinct, 'failures': fails}
 if fails: res.update(input=fails[0]['input'], observed=fails[0]['observed'], required=fails[0]['required'])
 print(json.dumps(res, default=str))
